@@ -40,6 +40,11 @@ func fnBitCount(ctx *cmdContext, args map[string]any) (output respValue, err err
 		length *= 8
 	}
 
+	if length == 0 || (start < 0 && end < 0 && start > end) {
+		output.data = respInt(0)
+		return
+	}
+
 	// right side indexing
 	if start < 0 {
 		start = length + start
@@ -48,18 +53,19 @@ func fnBitCount(ctx *cmdContext, args map[string]any) (output respValue, err err
 		end = length + end
 	}
 
-	// bounds checking
+	// bounds checking (as redis does: both ends clamp into the value, a start past the end counts nothing)
 	if start < 0 {
 		start = 0
-	} else if start >= length {
-		start = length - 1
 	}
-
-	if end < start {
+	if end < 0 {
+		end = 0
+	}
+	if end >= length {
+		end = length - 1
+	}
+	if start > end {
 		output.data = respInt(0)
 		return
-	} else if end >= length {
-		end = length - 1
 	}
 
 	if bitMode {
